@@ -378,3 +378,118 @@ Section MatchProofs.
       rewrite (sort_by_res_ok (@snd zt amp)) by (apply pad_hits_num). cbn [bind]. reflexivity.
   Qed.
 End MatchProofs.
+
+(* ---------------------------------------------------------------- MainEvent::avalanches *)
+Lemma btree_iter_lt bag c : In c (btree_iter bag) -> c < NCOLS.
+Proof.
+  unfold btree_iter. intros Hc. apply filter_In in Hc as [Hc _]. apply Nseq_in in Hc.
+  destruct Hc as [_ Hc]. rewrite N.add_0_l in Hc. exact Hc.
+Qed.
+
+Section AvalProofs.
+  Context {sig amp zt : Type}.
+  Variable azero : amp.
+  Variable apos : amp -> bool.
+  Variable agt : amp -> amp -> bool.
+  Variable pcmp : amp -> amp -> option comparison.
+  Variable zf : N -> amp -> amp -> amp -> zt.
+  Variable slen : sig -> nat.
+  Variable solve : nat -> list sig -> list (list amp).
+  Variable wdec : list amp -> res (list amp).
+  Variable pdec : sig -> res (list amp).
+  Variable sortW : list (N * amp) -> list (N * amp).
+  Variable sortP : list (zt * amp) -> list (zt * amp).
+  Variable num : amp -> Prop.
+  Implicit Types ws : list (option sig).
+
+  Hypothesis FAER : faer_shape solve.
+  Hypothesis WDEC : kernel_total wdec.
+  Hypothesis PDEC : kernel_total pdec.
+  Hypothesis LAWS : cmp_laws apos agt pcmp num.
+
+  Notation Dp := (D_of slen solve wdec).
+  Notation Pp := (P_of pdec).
+
+  Lemma fill_range_res_eq ws r (st : list (list amp) * list N) : wf ws -> good_range ws r ->
+    length (fst st) = N.to_nat NW ->
+    (do outs <- wire_range_deconvolution_res slen solve wdec ws r;
+     foldM (fun st '(i, input) =>
+              do wi <- upd_res (fst st) i input; Ok (wi, wire_to_pad_column i :: snd st)) outs st)
+    = Ok (fill_range Dp ws st r) /\ length (fst (fill_range Dp ws st r)) = N.to_nat NW.
+  Proof.
+    intros W G L. rewrite (wire_range_deconvolution_res_eq slen solve wdec FAER WDEC azero) by auto.
+    cbn [bind]. unfold fill_range.
+    apply (foldM_ok _ (fun st '(i, input) => (upd (fst st) i input, wire_to_pad_column i :: snd st))
+                    (fun st => length (fst st) = N.to_nat NW)); auto.
+    intros s [i input] I Hin. apply in_combine_l in Hin.
+    destruct G as (_ & _ & _ & G4). destruct (G4 i Hin) as [Hi _].
+    unfold upd_res. replace (i <? N.of_nat (length (fst s))) with true by lia. cbn [bind fst].
+    split. reflexivity. unfold upd. now rewrite upd_nat_length.
+  Qed.
+
+  Theorem wire_stage_res_eq ws : wf ws ->
+    wire_stage_res slen solve wdec ws = Ok (wire_stage Dp ws) /\
+    length (fst (wire_stage Dp ws)) = N.to_nat NW.
+  Proof.
+    intros W. unfold wire_stage_res, wire_stage. rewrite contiguous_ranges_res_eq by auto. cbn [bind].
+    apply (foldM_ok _ (fill_range Dp ws) (fun st => length (fst st) = N.to_nat NW)).
+    - intros s r I Hin. apply fill_range_res_eq; auto. now apply cr_good.
+    - cbn [fst]. apply repeat_length.
+  Qed.
+
+  Lemma pad_column_res_eq (col : list (option sig)) : N.of_nat (length col) = NROWS ->
+    mapM (fun row => do o <- idx col row; match o with Some signal => pdec signal | None => Ok [] end)
+         (Nseq 0 NROWS)
+    = Ok (pad_inputs_column Pp col).
+  Proof.
+    intros H. unfold Nseq. rewrite mapM_map. replace (N.to_nat NROWS) with (length col) by lia.
+    rewrite (mapM_ext _ (fun k => do o <- unwrap (nth_error col k);
+                                  match o with Some signal => pdec signal | None => Ok [] end)).
+    2:{ intros k _. unfold idx. now rewrite N.add_0_l, Nat2N.id. }
+    rewrite (mapM_nth (fun o : option sig => match o with Some signal => pdec signal | None => Ok [] end)).
+    unfold pad_inputs_column. apply mapM_ok. intros [s|] _; auto.
+    unfold P_of. destruct (PDEC s) as [v ->]. reflexivity.
+  Qed.
+
+  Theorem column_avalanches_res_eq (wi : list (list amp)) (pads : list (list (option sig))) c :
+    length wi = N.to_nat NW -> N.of_nat (length pads) = NCOLS ->
+    Forall (fun col => N.of_nat (length col) = NROWS) pads -> c < NCOLS ->
+    column_avalanches_res azero apos agt pcmp zf pdec sortW sortP wi pads c
+    = Ok (column_avalanches azero apos agt zf Pp sortW sortP wi pads c).
+  Proof.
+    intros Lw Lp Fp Hc. unfold column_avalanches_res, column_avalanches.
+    destruct (nth_error pads (N.to_nat c)) as [padcol|] eqn:E.
+    2:{ apply nth_error_None in E. lia. }
+    rewrite (idx_ok _ _ _ E). cbn [bind]. rewrite (nth_error_nth _ _ [] E).
+    assert (Hcol : N.of_nat (length padcol) = NROWS).
+    { eapply Forall_forall in Fp; eauto. eapply nth_error_In; eauto. }
+    rewrite pad_column_res_eq by auto. cbn [bind].
+    pose proof (pctw_in_bounds c) as [B1 B2].
+    destruct (pad_column_to_wires c) as [first last]. cbn [fst snd] in B1, B2.
+    unfold arr_try_into at 1. rewrite Nseq_length.
+    replace (N.to_nat (last - first) =? 8)%nat with true by (symmetry; apply Nat.eqb_eq; lia). cbn [bind].
+    unfold slice_res. replace ((first <=? last) && (last <=? N.of_nat (length wi))) with true
+      by (unfold NW in *; lia). cbn [bind].
+    assert (L8 : length (Avalanches.slice wi first last) = 8%nat).
+    { unfold Avalanches.slice. rewrite firstn_length, skipn_length. unfold NW in *. lia. }
+    unfold arr_try_into. rewrite L8. cbn [Nat.eqb bind].
+    apply (match_column_inputs_res_eq azero apos agt pcmp zf sortW sortP num LAWS).
+    - intros X. pose proof (eq_trans (eq_sym L8) (f_equal (@length _) X)) as Y. cbn in Y. discriminate Y.
+    - apply Forall_forall. intros i Hi. apply Nseq_in in Hi. unfold NW in *. lia.
+    - unfold pad_inputs_column. now rewrite map_length.
+  Qed.
+
+  (* (5) the whole function equals the pure skeleton of Signal/Avalanches.v with kernels D_of / P_of *)
+  Theorem avalanches_res_eq ws (pads : list (list (option sig))) :
+    wf ws -> N.of_nat (length pads) = NCOLS -> Forall (fun col => N.of_nat (length col) = NROWS) pads ->
+    avalanches_res azero apos agt pcmp zf slen solve wdec pdec sortW sortP ws pads
+    = Ok (avalanches azero apos agt zf Dp Pp sortW sortP ws pads).
+  Proof.
+    intros W Lp Fp. unfold avalanches_res, avalanches.
+    destruct (wire_stage_res_eq ws W) as [E L]. rewrite E. cbn [bind].
+    destruct (wire_stage Dp ws) as [wi inserted]. cbn [fst] in L.
+    rewrite (mapM_ok _ (column_avalanches azero apos agt zf Pp sortW sortP wi pads)).
+    - cbn [bind]. now rewrite flat_map_concat_map.
+    - intros c Hc. apply btree_iter_lt in Hc. now apply column_avalanches_res_eq.
+  Qed.
+End AvalProofs.
